@@ -350,6 +350,7 @@ func isErrNotNil(info *types.Info, cond ast.Expr) bool {
 func c13(r *core.Report) {
 	c13Close(r)
 	c13SecondPass(r)
+	c13Captured(r)
 	p := r.Prog
 	pk := p.Pkg("openapi3filter")
 	info := pk.TypesInfo
@@ -1198,5 +1199,74 @@ func c13SecondPass(r *core.Report) {
 		if n < 2 {
 			r.Bad("secondpass:missing", p.Pos(fd.Pos()), fmt.Sprintf("visitXOFOperations visits the matched alternative with the real value %d time(s); the oneOf and the anyOf branch each need one, or the defaults of the matched alternative are lost with the copies", n))
 		}
+	})
+}
+
+// c13Captured: the GetBody closure that ValidateRequestBody installs reads a variable of the
+// function. That variable is the request body from then on; what happens to it afterwards happens to
+// the body the caller gets back.
+func c13Captured(r *core.Report) {
+	p := r.Prog
+	info := p.Pkg("openapi3filter").TypesInfo
+	r.RunRule("C13.captured", "the bytes behind the installed GetBody change only on success: in ValidateRequestBody, a variable read by a function literal stored into req.GetBody is, after that store, never assigned together with an error from the same call (`data, err = f(...)`): when the call fails its zero result replaces the body, and the request handed back with the error can no longer be read through GetBody", 1, func() {
+		fd := p.DeclOf("openapi3filter", "ValidateRequestBody")
+		captured := map[types.Object]token.Pos{}
+		ast.Inspect(fd.Body, func(nd ast.Node) bool {
+			as, ok := nd.(*ast.AssignStmt)
+			if !ok || len(as.Lhs) != 1 || len(as.Rhs) != 1 {
+				return true
+			}
+			sel, ok := ast.Unparen(as.Lhs[0]).(*ast.SelectorExpr)
+			fl, isLit := ast.Unparen(as.Rhs[0]).(*ast.FuncLit)
+			if !ok || !isLit || sel.Sel.Name != "GetBody" {
+				return true
+			}
+			ast.Inspect(fl.Body, func(m ast.Node) bool {
+				if id, ok := m.(*ast.Ident); ok {
+					if o, isVar := info.ObjectOf(id).(*types.Var); isVar && o.Pos() < fl.Pos() && o.Pos() > fd.Pos() && !o.IsField() {
+						if _, seen := captured[o]; !seen {
+							captured[o] = as.Pos()
+						}
+					}
+				}
+				return true
+			})
+			return true
+		})
+		if len(captured) == 0 {
+			core.Fail("ValidateRequestBody installs no GetBody closure over a local")
+		}
+		n := 0
+		for o, since := range captured {
+			n++
+			key := "captured:ValidateRequestBody/" + o.Name()
+			bad := ""
+			ast.Inspect(fd.Body, func(nd ast.Node) bool {
+				as, ok := nd.(*ast.AssignStmt)
+				if !ok || as.Pos() < since || len(as.Rhs) != 1 || len(as.Lhs) < 2 {
+					return true
+				}
+				if _, isCall := ast.Unparen(as.Rhs[0]).(*ast.CallExpr); !isCall {
+					return true
+				}
+				hasVar, hasErr := false, false
+				for _, l := range as.Lhs {
+					if id, ok := ast.Unparen(l).(*ast.Ident); ok {
+						if info.ObjectOf(id) == o {
+							hasVar = true
+						}
+						if t := info.TypeOf(id); t != nil && isErrorType(t) {
+							hasErr = true
+						}
+					}
+				}
+				if hasVar && hasErr && bad == "" {
+					bad = p.Pos(as.Pos())
+				}
+				return true
+			})
+			r.Check(bad == "", key, p.Pos(since), o.Name()+" changes only after the call that produces its new value succeeded", fmt.Sprintf("%s, which the installed GetBody reads, is assigned together with an error at %s: when that call fails, %s holds the call's zero result and the request returned with the error has lost its body", o.Name(), bad, o.Name()))
+		}
+		_ = n
 	})
 }
